@@ -51,6 +51,7 @@ class Profile(object):
         ids = [c.get_id(ctx) for c in cb.play.get_packets(ctx)]
         self.colliding_cb_play = set(i for i in ids if ids.count(i) > 1)     # C06 known findings: dispatch is ambiguous there
         self.known_cb_login = set(c.get_id(ctx) for c in cb.login.get_packets(ctx))
+        self.sb_play_ids = set(c.get_id(ctx) for c in sb.play.get_packets(ctx))
 
     # ---- clientbound payload builders (the peer's own layouts)
     def status_response(self, text):
